@@ -6,7 +6,6 @@ import (
 	"strings"
 	"time"
 
-	"github.com/nyaruka/gocommon/dates"
 	"github.com/nyaruka/goflow/assets"
 	"github.com/nyaruka/goflow/assets/static"
 	"github.com/nyaruka/goflow/contactql"
@@ -210,7 +209,7 @@ func runC15(c *Ctx) {
 	}
 
 	// ---- M3/K: dates, by calendar day in the environment's timezone -------------------------
-	zones := []string{"UTC", "America/Bogota", "Asia/Kolkata", "Pacific/Auckland", "America/St_Johns", "Africa/Kigali", "Pacific/Kiritimati", "Asia/Kathmandu"}
+	zones := []string{"UTC", "America/Bogota", "Asia/Kolkata", "Pacific/Auckland", "America/St_Johns", "Africa/Kigali", "Pacific/Kiritimati", "Asia/Kathmandu", "Europe/London", "America/New_York", "Australia/Lord_Howe", "America/Santiago"}
 	n = c.N(3000, 150000)
 	for i := 0; i < n; i++ {
 		loc, err := time.LoadLocation(Pick(r, zones))
@@ -220,13 +219,22 @@ func runC15(c *Ctx) {
 		}
 		envz := envs.NewBuilder().WithTimezone(loc).WithDateFormat(Pick(r, []envs.DateFormat{envs.DateFormatYearMonthDay, envs.DateFormatDayMonthYear, envs.DateFormatMonthDayYear})).Build()
 		day := time.Date(2015+r.Intn(15), time.Month(1+r.Intn(12)), 1+r.Intn(28), 0, 0, 0, 0, loc)
+		if r.Chance(25) {
+			// a daylight savings transition day of this zone, if it has any in that year
+			if td, ok := transitionDay(loc, 2015+r.Intn(15), r.Bool()); ok {
+				day = td
+				c.Count("M3-dst-transition-day")
+			}
+		}
 		qvalue := day.Format("2006-01-02")
 		qv, perr := envs.DateTimeFromString(envz, qvalue, false)
 		if perr != nil {
 			c.Count("M3-unparseable-date-skipped")
 			continue
 		}
-		s, e := dates.DayToUTCRange(qv, qv.Location())
+		// the calendar day of the query value in its own zone, computed independently of the implementation
+		s := firstInstantOfDay(qv.Year(), qv.Month(), qv.Day(), qv.Location())
+		e := firstInstantOfDay(qv.Year(), qv.Month(), qv.Day()+1, qv.Location())
 		// object instants around the boundaries, in a different zone than the query value
 		var obj time.Time
 		switch r.Intn(8) {
@@ -409,6 +417,42 @@ func c15Totality(c *Ctx, resolver contactql.Resolver) {
 			}
 		}
 	}
+}
+
+// the first instant whose calendar date in loc is the given day, by binary search on the definition
+// (the local date is monotone in time); midnight may be skipped or repeated by a DST transition
+func firstInstantOfDay(year int, month time.Month, day int, loc *time.Location) time.Time {
+	noon := time.Date(year, month, day, 12, 0, 0, 0, loc)
+	target := noon.Format("2006-01-02")
+	lo, hi := noon.Add(-15*time.Hour), noon // lo is on an earlier day, hi on the target day
+	for hi.Sub(lo) > time.Nanosecond {
+		mid := lo.Add(hi.Sub(lo) / 2)
+		if mid.In(loc).Format("2006-01-02") >= target {
+			hi = mid
+		} else {
+			lo = mid
+		}
+	}
+	return hi
+}
+
+// first (or last) calendar day of the year on which the zone's UTC offset changes
+func transitionDay(loc *time.Location, year int, first bool) (time.Time, bool) {
+	var found time.Time
+	ok := false
+	for d := 0; d < 366; d++ {
+		a := time.Date(year, 1, 1+d, 0, 0, 0, 0, loc)
+		b := time.Date(year, 1, 2+d, 0, 0, 0, 0, loc)
+		_, oa := a.Zone()
+		_, ob := b.Zone()
+		if oa != ob {
+			found, ok = a, true
+			if first {
+				break
+			}
+		}
+	}
+	return found, ok
 }
 
 func shapeOfText(text string) string {
